@@ -3,7 +3,7 @@
    determinism in the Go code is what a function cannot express: map iteration order, goroutine
    scheduling, clocks, randomness, process-local caches.  Gen/Sites.v lists every such site of the
    consensus-path packages (regenerated from the source on each run). *)
-From Goat Require Import Base.Prelude Model.Locking Gen.Sites Proofs.Determinism.
+From Goat Require Import Base.Prelude Model.Locking Model.Bridge Gen.Sites Proofs.Determinism.
 From Coq Require Import Permutation.
 
 (* every site is either outside the state transition (proposal building/checking, start-up, CLI,
@@ -32,3 +32,16 @@ Theorem C07_lock_map_order_matters :
   exists s now l1 l2, Permutation l1 l2 /\ List.NoDup (map fst l1) /\ lock_work s now l1 <> lock_work s now l2.
 Proof. exact lock_map_order_matters. Qed.
 Print Assumptions C07_lock_map_order_matters.
+
+(* re-execution and restart: a run is a function of (state, operations) alone, so a replica that stops after
+   any prefix of the history and resumes from the state it committed reaches the state of one that never
+   stopped (the committed state is all that is carried across: C18 proves export/import preserves it) *)
+Theorem C07_locking_restart_anywhere s ops1 ops2 :
+  lk_run s (ops1 ++ ops2) = lk_run (lk_run s ops1) ops2.
+Proof. unfold lk_run. apply fold_left_app. Qed.
+Print Assumptions C07_locking_restart_anywhere.
+
+Theorem C07_bridge_restart_anywhere H chain_id s ops1 ops2 :
+  Bridge.bk_run H chain_id s (ops1 ++ ops2) = Bridge.bk_run H chain_id (Bridge.bk_run H chain_id s ops1) ops2.
+Proof. unfold Bridge.bk_run. apply fold_left_app. Qed.
+Print Assumptions C07_bridge_restart_anywhere.
